@@ -2466,4 +2466,327 @@ theorem blocksOf_flatten {α : Type} : ∀ {segs : List (Nat × Nat)} {a b : Nat
         exact this
 
 
+/-! ### positions and slices -/
+
+theorem getD_slice (l : List Nat) (a b i : Nat) (ha : a ≤ i) (hb : i < b) (hl : b ≤ l.length) :
+    (slice l a b).getD (i - a) 0 = l.getD i 0 := by
+  have h1 : i - a < (slice l a b).length := by rw [slice_length l a b (by omega) hl]; omega
+  have h2 : i < l.length := by omega
+  rw [List.getD, List.getD, List.getElem?_eq_getElem h1, List.getElem?_eq_getElem h2]
+  simp only [Option.getD_some, slice, List.getElem_take, List.getElem_drop]
+  congr 1; omega
+
+theorem getD_mem_slice (l : List Nat) (a b i : Nat) (ha : a ≤ i) (hb : i < b) (hl : b ≤ l.length) :
+    l.getD i 0 ∈ slice l a b := by
+  rw [← getD_slice l a b i ha hb hl]
+  have h1 : i - a < (slice l a b).length := by rw [slice_length l a b (by omega) hl]; omega
+  simp only [List.getD, List.getElem?_eq_getElem h1, Option.getD_some]
+  exact List.getElem_mem h1
+
+theorem mem_slice_iff (l : List Nat) (a b : Nat) (hab : a ≤ b) (hl : b ≤ l.length) (x : Nat) :
+    x ∈ slice l a b ↔ ∃ i, a ≤ i ∧ i < b ∧ l.getD i 0 = x := by
+  constructor
+  · intro hx
+    obtain ⟨t, ht, rfl⟩ := List.getElem_of_mem hx
+    rw [slice_length l a b hab hl] at ht
+    refine ⟨a + t, by omega, by omega, ?_⟩
+    rw [← getD_slice l a b (a + t) (by omega) (by omega) hl]
+    have : a + t - a = t := by omega
+    have h1 : t < (slice l a b).length := by rw [slice_length l a b hab hl]; exact ht
+    simp [this, List.getD, List.getElem?_eq_getElem h1]
+  · rintro ⟨i, h1, h2, rfl⟩
+    exact getD_mem_slice l a b i h1 h2 hl
+
+/-- the stage result: every block sorted -/
+def sortBlocks (kf : Nat → Cell) (perm : List Nat) (lohis : List (Nat × Nat)) : List Nat :=
+  ((blocksOf perm lohis).map (sortBy (ltBy kf))).flatten
+
+theorem sortBlocks_slices (kf : Nat → Cell) (perm : List Nat) (lohis : List (Nat × Nat)) (N : Nat)
+    (hs : Segs lohis 0 N) (hN : N = perm.length) :
+    (sortBlocks kf perm lohis).length = N ∧ (sortBlocks kf perm lohis).Perm perm ∧
+    ∀ p ∈ lohis, slice (sortBlocks kf perm lohis) p.1 p.2 = sortBy (ltBy kf) (slice perm p.1 p.2) := by
+  have hf : List.Forall₂ (fun (p : Nat × Nat) blk => blk.length = p.2 - p.1) lohis
+      ((blocksOf perm lohis).map (sortBy (ltBy kf))) := by
+    have hb := hs.bounds
+    clear hs
+    induction lohis with
+    | nil => exact List.Forall₂.nil
+    | cons p r ih =>
+      simp only [blocksOf, List.map_cons] at ih ⊢
+      refine List.Forall₂.cons ?_ (ih (fun q hq => hb q (by simp [hq])))
+      have := hb p (by simp)
+      rw [sortBy_length, slice_length perm p.1 p.2 this.2.1 (by omega)]
+  have hbl := blocksOf_flatten hs ([] : List Nat) _ rfl hf
+  simp only [List.nil_append] at hbl
+  have hperm : (sortBlocks kf perm lohis).Perm perm := by
+    have e : perm = (blocksOf perm lohis).flatten := by
+      rw [blocks_flatten perm hs, hN, slice_full]
+    conv_rhs => rw [e]
+    simp only [sortBlocks]
+    generalize blocksOf perm lohis = bs
+    induction bs with
+    | nil => exact List.Perm.refl _
+    | cons b rest ih =>
+      simp only [List.map_cons, List.flatten_cons]
+      exact (sortBy_perm _ b).append ih
+  refine ⟨by rw [hperm.length_eq, hN], hperm, ?_⟩
+  intro p hp
+  have : lohis.map (fun p => slice (sortBlocks kf perm lohis) p.1 p.2) = lohis.map (fun p => sortBy (ltBy kf) (slice perm p.1 p.2)) := by
+    have := hbl
+    simp only [blocksOf, List.map_map] at this
+    simpa [sortBlocks, blocksOf, List.map_map, Function.comp] using this
+  exact List.map_inj_left.mp this p hp
+
+/-! ### the lexicographic order on the processed columns -/
+
+/-- `K d x`: key of original row `x` in column `d`; lexicographic `<` over the columns `ds` -/
+def lexLtK (K : Nat → Nat → Key) : List Nat → Nat → Nat → Bool
+  | [], _, _ => false
+  | d :: ds, x, y => if (K d x).lt (K d y) then true else if (K d y).lt (K d x) then false else lexLtK K ds x y
+
+theorem lexLtK_agree (K : Nat → Nat → Key) : ∀ (ds : List Nat) (x y : Nat), (∀ d ∈ ds, K d x = K d y) →
+    ∀ es, lexLtK K (ds ++ es) x y = lexLtK K es x y
+  | [], _, _, _, _ => rfl
+  | d :: ds, x, y, h, es => by
+    simp only [List.cons_append, lexLtK, h d (by simp), Key.lt_irrefl]
+    exact lexLtK_agree K ds x y (fun d' hd' => h d' (by simp [hd'])) es
+
+theorem lexLtK_agree_false (K : Nat → Nat → Key) (ds : List Nat) (x y : Nat) (h : ∀ d ∈ ds, K d x = K d y) :
+    lexLtK K ds x y = false := by
+  have := lexLtK_agree K ds x y h []
+  simpa [lexLtK] using this
+
+theorem lexLtK_append_of_lt (K : Nat → Nat → Key) : ∀ (ds es : List Nat) (x y : Nat), lexLtK K ds x y = true →
+    lexLtK K (ds ++ es) x y = true
+  | [], _, _, _, h => by simp [lexLtK] at h
+  | d :: ds, es, x, y, h => by
+    simp only [List.cons_append, lexLtK] at h ⊢
+    split
+    · rfl
+    · rename_i h1
+      simp only [h1] at h
+      split
+      · rename_i h2; simp [h2] at h
+      · rename_i h2
+        simp only [h2] at h
+        exact lexLtK_append_of_lt K ds es x y h
+
+theorem lexLtK_asymm (K : Nat → Nat → Key) : ∀ (ds : List Nat) (x y : Nat), lexLtK K ds x y = true → lexLtK K ds y x = false
+  | [], _, _, h => by simp [lexLtK] at h
+  | d :: ds, x, y, h => by
+    simp only [lexLtK] at h ⊢
+    by_cases h1 : (K d x).lt (K d y) = true
+    · simp [Key.lt_asymm _ _ h1, h1]
+    · simp only [h1] at h
+      by_cases h2 : (K d y).lt (K d x) = true
+      · simp [h2] at h
+      · simp only [h2] at h
+        simp only [h2, h1]
+        exact lexLtK_asymm K ds x y h
+
+
+/-! ### consecutive segments: cover and order -/
+
+theorem Segs.cover {l : List (Nat × Nat)} {a b : Nat} (h : Segs l a b) (i : Nat) (h1 : a ≤ i) (h2 : i < b) :
+    ∃ p ∈ l, p.1 ≤ i ∧ i < p.2 := by
+  induction h with
+  | nil a => omega
+  | @cons a hh b r hah hr ih =>
+    by_cases hi : i < hh
+    · exact ⟨(a, hh), by simp, h1, hi⟩
+    · obtain ⟨p, hp, hq⟩ := ih (by omega) h2
+      exact ⟨p, by simp [hp], hq⟩
+
+theorem Segs.order {l : List (Nat × Nat)} {a b : Nat} (h : Segs l a b) :
+    ∀ p ∈ l, ∀ q ∈ l, p.2 ≤ q.1 ∨ q.2 ≤ p.1 ∨ p = q := by
+  induction h with
+  | nil a => simp
+  | @cons a hh b r hah hr ih =>
+    intro p hp q hq
+    simp at hp hq
+    rcases hp with rfl | hp <;> rcases hq with rfl | hq
+    · exact Or.inr (Or.inr rfl)
+    · exact Or.inl (hr.bounds q hq).1
+    · exact Or.inr (Or.inl (hr.bounds p hp).1)
+    · exact ih p hp q hq
+
+/-! ### one stage of the index loop -/
+
+/-- what holds between the stages of `Table.index`: `perm` (the row numbers in their current order)
+is a permutation; inside a segment all rows agree on the keys of the processed columns `done`;
+rows of different segments are strictly ordered by them -/
+structure StageInv (K : Nat → Nat → Key) (N : Nat) (done : List Nat) (perm : List Nat) (lohis : List (Nat × Nat)) : Prop where
+  isPerm : perm.Perm (List.range N)
+  segs : Segs lohis 0 N
+  agree : ∀ d ∈ done, ∀ p ∈ lohis, ∀ i j, p.1 ≤ i → i < p.2 → p.1 ≤ j → j < p.2 →
+    K d (perm.getD i 0) = K d (perm.getD j 0)
+  strict : ∀ p ∈ lohis, ∀ i j, i < p.2 → p.2 ≤ j → j < N →
+    lexLtK K done (perm.getD i 0) (perm.getD j 0) = true
+
+theorem StageInv.len {K : Nat → Nat → Key} {N : Nat} {done perm lohis} (h : StageInv K N done perm lohis) :
+    perm.length = N := by
+  rw [h.isPerm.length_eq]; simp
+
+/-- position `i` of the sorted blocks holds a row that was at some position of the same segment -/
+theorem sortBlocks_pos (kf : Nat → Cell) (perm : List Nat) (lohis : List (Nat × Nat)) (N : Nat)
+    (hs : Segs lohis 0 N) (hN : N = perm.length) (p : Nat × Nat) (hp : p ∈ lohis) (i : Nat) (h1 : p.1 ≤ i) (h2 : i < p.2) :
+    ∃ i', p.1 ≤ i' ∧ i' < p.2 ∧ (sortBlocks kf perm lohis).getD i 0 = perm.getD i' 0 := by
+  obtain ⟨l1, l2, l3⟩ := sortBlocks_slices kf perm lohis N hs hN
+  have hb := hs.bounds p hp
+  have hm := getD_mem_slice (sortBlocks kf perm lohis) p.1 p.2 i h1 h2 (by rw [l1]; exact hb.2.2)
+  rw [l3 p hp] at hm
+  have hm' := (sortBy_perm (ltBy kf) _).mem_iff.mp hm
+  obtain ⟨i', a, b, c⟩ := (mem_slice_iff perm p.1 p.2 hb.2.1 (by omega) _).mp hm'
+  exact ⟨i', a, b, c.symm⟩
+
+theorem stage_sort (K : Nat → Nat → Key) (N : Nat) (done : List Nat) (perm : List Nat) (lohis : List (Nat × Nat))
+    (h : StageInv K N done perm lohis) (kf : Nat → Cell) :
+    StageInv K N done (sortBlocks kf perm lohis) lohis ∧
+    (∀ p ∈ lohis, ∀ i j, p.1 ≤ i → i < j → j < p.2 →
+      ltBy kf ((sortBlocks kf perm lohis).getD j 0) ((sortBlocks kf perm lohis).getD i 0) = false) := by
+  have hN : N = perm.length := h.len.symm
+  obtain ⟨l1, l2, l3⟩ := sortBlocks_slices kf perm lohis N h.segs hN
+  refine ⟨⟨l2.trans h.isPerm, h.segs, ?_, ?_⟩, ?_⟩
+  · intro d hd p hp i j a b c e
+    obtain ⟨i', a1, a2, a3⟩ := sortBlocks_pos kf perm lohis N h.segs hN p hp i a b
+    obtain ⟨j', b1, b2, b3⟩ := sortBlocks_pos kf perm lohis N h.segs hN p hp j c e
+    rw [a3, b3]
+    exact h.agree d hd p hp i' j' a1 a2 b1 b2
+  · intro p hp i j a b c
+    have hb := h.segs.bounds p hp
+    -- the segments of i and j
+    obtain ⟨qi, hqi, qi1, qi2⟩ := h.segs.cover i (Nat.zero_le _) (by omega)
+    obtain ⟨qj, hqj, qj1, qj2⟩ := h.segs.cover j (Nat.zero_le _) c
+    obtain ⟨i', a1, a2, a3⟩ := sortBlocks_pos kf perm lohis N h.segs hN qi hqi i qi1 qi2
+    obtain ⟨j', b1, b2, b3⟩ := sortBlocks_pos kf perm lohis N h.segs hN qj hqj j qj1 qj2
+    rw [a3, b3]
+    have hi' : i' < p.2 := by
+      rcases h.segs.order p hp qi hqi with o | o | o
+      · omega
+      · omega
+      · subst o; exact a2
+    have hj' : p.2 ≤ j' := by
+      rcases h.segs.order p hp qj hqj with o | o | o
+      · omega
+      · omega
+      · subst o; omega
+    exact h.strict p hp i' j' hi' hj' (by have := (h.segs.bounds qj hqj).2.2; omega)
+  · intro p hp i j a b c
+    have hb := h.segs.bounds p hp
+    have hsorted := sortBy_sorted (ltBy kf) ⟨fun _ _ hh => Key.lt_asymm _ _ hh, fun _ _ _ h1 h2 => Key.le_trans _ _ _ h1 h2⟩ (slice perm p.1 p.2)
+    rw [← l3 p hp] at hsorted
+    unfold SortedBy at hsorted
+    rw [List.pairwise_iff_getElem] at hsorted
+    have hl : (slice (sortBlocks kf perm lohis) p.1 p.2).length = p.2 - p.1 :=
+      slice_length _ _ _ hb.2.1 (by rw [l1]; exact hb.2.2)
+    have := hsorted (i - p.1) (j - p.1) (by omega) (by omega) (by omega)
+    have e1 := getD_slice (sortBlocks kf perm lohis) p.1 p.2 i a (by omega) (by rw [l1]; exact hb.2.2)
+    have e2 := getD_slice (sortBlocks kf perm lohis) p.1 p.2 j (by omega) c (by rw [l1]; exact hb.2.2)
+    rw [← e1, ← e2]
+    have hi0 : i - p.1 < (slice (sortBlocks kf perm lohis) p.1 p.2).length := by omega
+    have hj0 : j - p.1 < (slice (sortBlocks kf perm lohis) p.1 p.2).length := by omega
+    simpa [List.getD, List.getElem?_eq_getElem hi0, List.getElem?_eq_getElem hj0] using this
+
+
+theorem cellAt_map_getD (kf : Nat → Cell) (perm : List Nat) (i : Nat) (h : i < perm.length) :
+    cellAt (perm.map kf) i = kf (perm.getD i 0) := by
+  rw [cellAt_map kf perm i h]
+  simp [List.getD, List.getElem?_eq_getElem h]
+
+/-- after the column has been permuted, its runs inside the old segments are the new segments -/
+theorem stage_refine (K : Nat → Nat → Key) (N : Nat) (done : List Nat) (perm : List Nat) (lohis : List (Nat × Nat))
+    (h : StageInv K N done perm lohis) (k : Nat) (kf : Nat → Cell) (hkf : ∀ x, (kf x).key = K k x)
+    (nxt : List (Nat × Nat)) (hsegs : Segs nxt 0 N)
+    (hruns : ∀ q ∈ nxt, ∃ p ∈ lohis, p.1 ≤ q.1 ∧ IsRun (perm.map kf) p.2 q) :
+    StageInv K N (done ++ [k]) perm nxt := by
+  have hlen := h.len
+  have hcell : ∀ i, i < N → (cellAt (perm.map kf) i).key = K k (perm.getD i 0) := by
+    intro i hi
+    rw [cellAt_map_getD kf perm i (by omega), hkf]
+  refine ⟨h.isPerm, hsegs, ?_, ?_⟩
+  · intro d hd q hq i j a b c e
+    obtain ⟨p, hp, hpq, hrun⟩ := hruns q hq
+    have hpb := h.segs.bounds p hp
+    rw [List.mem_append] at hd
+    rcases hd with hd | hd
+    · exact h.agree d hd p hp i j (by omega) (by have := hrun.le; omega) (by omega) (by have := hrun.le; omega)
+    · simp at hd; subst hd
+      have hle := hrun.le
+      rw [← hcell i (by omega), ← hcell j (by omega), hrun.same i a b, hrun.same j c e]
+  · intro q hq i j a b c
+    obtain ⟨p, hp, hpq, hrun⟩ := hruns q hq
+    have hpb := h.segs.bounds p hp
+    have hle := hrun.le
+    by_cases hj : j < p.2
+    · by_cases hi : p.1 ≤ i
+      · -- both in the parent segment p: agree on `done`, ordered by column k
+        have hag : ∀ d ∈ done, K d (perm.getD i 0) = K d (perm.getD j 0) :=
+          fun d hd => h.agree d hd p hp i j hi (by omega) (by omega) hj
+        rw [lexLtK_agree K done _ _ hag [k]]
+        -- the run containing i
+        obtain ⟨qi, hqi, qi1, qi2⟩ := hsegs.cover i (Nat.zero_le _) (by omega)
+        obtain ⟨pi, hpi, hpqi, hruni⟩ := hruns qi hqi
+        have hpi_eq : pi = p := by
+          have hlei := hruni.le
+          rcases h.segs.order pi hpi p hp with o | o | o
+          · omega
+          · omega
+          · exact o
+        subst hpi_eq
+        have hq2 : qi.2 ≤ q.2 := by
+          have := hrun.ne
+          rcases hsegs.order qi hqi q hq with o | o | o
+          · omega
+          · omega
+          · subst o; exact le_refl _
+        have hafter := hruni.after j (by omega) hj
+        rw [hcell j c, ← hruni.same i qi1 qi2, hcell i (by omega)] at hafter
+        simp only [lexLtK, hafter, if_true]
+      · -- i lies in an earlier segment of the old level
+        obtain ⟨p0, hp0, p01, p02⟩ := h.segs.cover i (Nat.zero_le _) (by omega)
+        have : p0.2 ≤ p.1 := by
+          rcases h.segs.order p0 hp0 p hp with o | o | o
+          · exact o
+          · omega
+          · subst o; omega
+        exact lexLtK_append_of_lt K done [k] _ _ (h.strict p0 hp0 i j p02 (by have := hrun.ne; omega) c)
+    · exact lexLtK_append_of_lt K done [k] _ _ (h.strict p hp i j (by omega) (by omega) c)
+
+
+/-! ### the loop of `Table.index` -/
+
+theorem lookupCol_setCol (data : List (Nat × List Cell)) (c : Nat) (v : List Cell) (d : Nat) :
+    lookupCol (setCol data c v) d =
+      if d = c then (match lookupCol data c with | .ok _ => .ok v | .error e => .error e) else lookupCol data d := by
+  have hf : (setCol data c v).find? (fun p => p.1 == d) =
+      (data.find? (fun p => p.1 == d)).map (fun p => if p.1 == c then (p.1, v) else p) := by
+    simp only [setCol, List.find?_map]
+    congr 2
+    funext p
+    by_cases h : (p.1 == c) = true <;> simp [Function.comp, h]
+  simp only [lookupCol, hf]
+  by_cases hdc : d = c
+  · subst hdc
+    simp only [if_true]
+    cases hfd : data.find? (fun p => p.1 == d) with
+    | none => simp
+    | some p =>
+      have := List.find?_some hfd
+      simp only [Option.map_some, this, if_true]
+  · simp only [hdc, if_false]
+    cases hfd : data.find? (fun p => p.1 == d) with
+    | none => simp
+    | some p =>
+      have := List.find?_some hfd
+      simp only [beq_iff_eq] at this
+      have hpc : ¬ p.1 = c := by rw [this]; exact hdc
+      simp [hpc]
+
+theorem allComparable_of : ∀ (l : List Cell), (∀ a ∈ l, ∀ b ∈ l, a.key.comparable b.key = true) → allComparable l = true
+  | [], _ => rfl
+  | x :: xs, h => by
+    simp only [allComparable, Bool.and_eq_true, List.all_eq_true]
+    exact ⟨fun y hy => h x (by simp) y (by simp [hy]), allComparable_of xs (fun a ha b hb => h a (by simp [ha]) b (by simp [hb]))⟩
+
+
 end Coba.C17
